@@ -18,7 +18,7 @@ PYTHONPATH=$R /venv/bin/python /verif/seeded/$n/demo.py >/dev/null 2>&1 && echo 
 git apply /verif/seeded/$n/patch.diff
 PYTHONPATH=$R /venv/bin/python /verif/seeded/$n/demo.py >/dev/null 2>&1 && echo "demo: passes WITH change (!)" || echo "demo: fails with change (as intended)"
 if [ "$4" != "notests" ]; then
-  /venv/bin/python -m pytest -q -p no:cacheprovider -x -q tests --deselect tests/test_plugins.py --deselect tests/test_validators_tags.py 2>&1 | tail -1
+  /venv/bin/python -m pytest -q -p no:cacheprovider -x tests --deselect tests/test_plugins.py --deselect tests/test_validators_tags.py >/dev/null 2>&1 && echo "tests: pass with change" || echo "tests: FAIL with change (!)"
 fi
 cd /verif
 VERIF_REPO=$R ./check $pid --tier $tier 2>&1 | grep -E "VIOLATION|INTERNAL|Error|rc=" | cut -c1-200 | head -5
